@@ -187,7 +187,7 @@ def generic_atom(e):
     """what a test means when no rule-specific reading applies"""
     t = e.get("type")
     if t == "Identifier":
-        return BF.atom("t:" + e["value"])
+        return BF.atom("t:" + JF.text(e))  # (a parameter of a helper reads as the argument of the call considered)
     if t in ("MemberExpression", "CallExpression", "OptionalChainingExpression"):
         return BF.atom("t:" + JF.text(e))
     if t == "BinaryExpression":
@@ -229,8 +229,52 @@ class Reach:
     def _at(self, top):
         def atomz(e):
             a = self.atomize(e, top)
+            if a is None and e.get("type") == "CallExpression" and chain(e) == ["Boolean"] and len(args(e)) == 1:
+                return None  # jsflow.formula reads Boolean(x) as the truthiness of x
+            if a is None and e.get("type") == "CallExpression":
+                a = self.helper_truth(e, top)
+            if a is None and e.get("type") == "OptionalChainingExpression":
+                return None  # jsflow.formula splits `a?.b` into the tests of `a && a.b`
             return a if a is not None else generic_atom(e)
         return atomz
+
+    def helper_truth(self, call, top, depth=0):
+        """formula of the truthiness of the result of a local (not exported) helper function, read off its return
+        paths, with its parameters rendered as the arguments of this call"""
+        F = self.F
+        ch = chain(call)
+        h = F.decls.get(ch[0]) if len(ch) == 1 else None
+        if h is None or ch[0] in self._exported or depth > 2 or h.get("type") not in ("FunctionDeclaration", "FunctionExpression", "ArrowFunctionExpression"):
+            return None
+        params = F.params(h)
+        a = args(call)
+        if len(a) < len(params):
+            return None
+        ren = dict(JF.REN[0])
+        for p_, arg in zip(params, a):
+            ren[p_] = JF.text(arg)
+        fn = F.fn(h)
+        old = JF.REN[0]
+        JF.REN[0] = ren
+        try:
+            at_h = self._at(h)
+            rc = F.resolve_const(h)
+            alts = []
+            for conds, ret in fn.decision_paths():
+                r_ = JF.unparen(ret) if ret is not None else None
+                tv = JF.truthiness(r_) if r_ is not None else False
+                if tv is False:
+                    continue
+                fs = []
+                for e_, v_ in conds:
+                    f_ = JF.formula(e_, at_h, rc)
+                    fs.append(f_ if v_ else BF.neg(f_))
+                if tv is None:
+                    fs.append(JF.formula(r_, at_h, rc))
+                alts.append(BF.conj(fs))
+            return BF.disj(alts)
+        finally:
+            JF.REN[0] = old
 
     def local(self, site, top, ren=None):
         fn = self.F.fn(top)
@@ -709,9 +753,19 @@ def rule_stack(c, R, F):
         return
     dp = dps[0]
     outer = F.enclosing_fn(dp)
-    p0 = F.params(outer)[0]
     sym = JF.text(args(dp)[1])
     wrapper_name = jsast.ident_name(args(dp)[0])
+    mark_helper = None
+    if wrapper_name in F.params(outer) and F.fn_name(outer) and F.fn_name(outer) not in exported_names(jf):
+        # the mark is put on by a local helper `mark(fn)`: the wrapper is what the helper is applied to, in the
+        # function that applies it
+        sites = F.callers(F.fn_name(outer))
+        i_ = F.params(outer).index(wrapper_name)
+        if len(sites) == 1 and len(args(sites[0])) > i_ and jsast.ident_name(args(sites[0])[i_]):
+            mark_helper = F.fn_name(outer)
+            wrapper_name = jsast.ident_name(args(sites[0])[i_])
+            outer = F.enclosing_fn(sites[0])
+    p0 = F.params(outer)[0]
     desc = args(dp)[2]
     val = None
     for p in desc.get("properties", []) if desc.get("type") == "ObjectExpression" else []:
@@ -726,7 +780,7 @@ def rule_stack(c, R, F):
     reach_outer = Reach(F, lambda e, t: None, stop=[outer])
     rets = [n for n in jsast.walk(outer) if n.get("type") == "ReturnStatement" and F.enclosing_fn(n) is outer]
     same = [n for n in rets if jsast.ident_name(n.get("argument")) == p0]
-    wrapd = [n for n in rets if jsast.ident_name(n.get("argument")) == wrapper_name]
+    wrapd = [n for n in rets if jsast.ident_name(n.get("argument")) == wrapper_name or (mark_helper and n.get("argument") is not None and JF.unparen(n["argument"]).get("type") == "CallExpression" and chain(JF.unparen(n["argument"])) == [mark_helper] and [jsast.ident_name(a_) for a_ in args(JF.unparen(n["argument"]))][:1] == [wrapper_name])]
     c.expect(len(same) + len(wrapd) == len(rets) and wrapd, R, R + "/returns", jf.loc(outer), "returns the handler itself or the marked wrapper", "a return of %s hands out neither the handler nor the marked wrapper" % F.fn_name(outer))
     if same:
         expect_gate(c, R, R + "/already-wrapped", jf.loc(same[0]), reach_outer.any_of(same), BF.conj([P0, MARK]), "the handler is returned as it is")
